@@ -109,10 +109,10 @@ def interpolate(
     """
     # Check if data points for interpolation are in the boundary of the grid
     if not (
-        x >= np.min(grid_x)
-        and x <= np.max(grid_x)
-        and y >= np.min(grid_y)
-        and y <= np.max(grid_y)
+        np.all(x >= np.min(grid_x))
+        and np.all(x <= np.max(grid_x))
+        and np.all(y >= np.min(grid_y))
+        and np.all(y <= np.max(grid_y))
     ):
         raise ValueError(
             f"Given data points for interpolation (x: {x}, y: {y}) exceeds grid boundaries (x_min: {np.min(grid_x)}, x_max: {np.max(grid_x)}, y_min: {np.min(grid_y)}, y_max: {np.max(grid_y)})"
